@@ -171,6 +171,7 @@ class Unit:
         loop_specs = {}
         inserts = []     # (mode, anchor, lines)
         rewrites = []    # (old, new, all)
+        desugars = {}    # loop ordinal -> iterator name (R11)
         cur = None
         for l in block:
             s = l.strip()
@@ -183,6 +184,10 @@ class Unit:
                 mode, anchor = s[3:].split(' ', 1)
                 cur = []
                 inserts.append((mode, anchor.strip(), cur))
+            elif s.startswith('//@desugar '):
+                w = s.split()
+                desugars[int(w[1])] = w[2] if len(w) > 2 else 'it__%s' % w[1]
+                cur = None
             elif s.startswith('//@rewrite'):
                 all_ = s.startswith('//@rewriteall')
                 body = s.split(' ', 1)[1]
@@ -227,18 +232,55 @@ class Unit:
         if kv.get('attr'):
             pre_attr += '#[%s]\n' % kv['attr'].replace('~', ' ')
         if mode == 'external_body':
-            loop_specs, inserts = {}, []      # body is dropped (R8)
+            loop_specs, inserts, desugars = {}, [], {}      # body is dropped (R8)
         # loops
         loops = src.loops(bopen, bclose)
+        # R11: `for PAT in EXPR { BODY }` is spelled out as the language defines it (Rust reference,
+        # "Iterator loops"): match IntoIterator::into_iter(EXPR) { mut it => loop { match it.next() {
+        # None => break, Some(PAT) => { BODY } } } } -- so that the loop can be specified through
+        # (assumed) contracts of into_iter/next of iterators for which Verus has no `for` support.
+        for k, itname in desugars.items():
+            if k < 1 or k > len(loops) or loops[k - 1][2] != 'for':
+                raise Lost('fn %s: for-loop #%d not found' % (name, k))
+            kw, br, _ = loops[k - 1]
+            hdr = text[kw:br]
+            m_in = None
+            depth = 0
+            for mm in re.finditer(r'[(\[{]|[)\]}]|\bin\b', hdr):
+                t_ = mm.group(0)
+                if t_ in '([{':
+                    depth += 1
+                elif t_ in ')]}':
+                    depth -= 1
+                elif depth == 0:
+                    m_in = mm
+                    break
+            if m_in is None:
+                raise Lost('fn %s: for-loop #%d: no `in`' % (name, k))
+            pat = hdr[3:m_in.start()].strip()
+            expr = hdr[m_in.end():].strip()
+            close = src.match_brace(br)
+            rewrites.append((hdr.rstrip(), 'match IntoIterator::into_iter(%s) { mut %s => loop' % (expr, itname), False))
+            ins.append((br + 1, ' let ghost %s_prev = %s; match %s.next() { None => break, Some(%s) => {' % (itname, itname, itname, pat), 'desugar#%d' % k))
+            ins.append((close + 1, ' } } }', 'desugar_close#%d' % k))
+            self.rewrites.append(dict(rule='R11', fn=name, loop=k, pattern=pat, iterator=expr))
         for k, spec_lines in loop_specs.items():
             if k < 1 or k > len(loops):
                 raise Lost('fn %s: loop #%d not found (%d loops)' % (name, k, len(loops)))
             ins.append((loops[k - 1][1], '\n' + '\n'.join(spec_lines) + '\n', 'loop#%d' % k))
         for mode_, anchor, lines_ in inserts:
+            nth = None
+            mm_ = re.search(r'\s+##(\d+)$', anchor)
+            if mm_:
+                nth = int(mm_.group(1))
+                anchor = anchor[:mm_.start()]
             pos = text.find(anchor, bopen, bclose)
+            for _ in range((nth or 1) - 1):
+                if pos >= 0:
+                    pos = text.find(anchor, pos + 1, bclose)
             if pos < 0:
                 raise Lost('fn %s: anchor text not found: %s' % (name, anchor))
-            if text.find(anchor, pos + 1, bclose) >= 0 and not anchor.endswith('#first'):
+            if nth is None and text.find(anchor, pos + 1, bclose) >= 0 and not anchor.endswith('#first'):
                 raise Lost('fn %s: anchor text ambiguous: %s' % (name, anchor))
             if mode_ == 'after':
                 e = text.find('\n', pos)
@@ -287,6 +329,8 @@ class Unit:
             out_pieces.append([kind, seg])
         for old, new, all_ in rewrites:
             cnt = sum(seg.count(old) for kind, seg in out_pieces if kind == 'src')
+            if cnt == 0 and mode == 'external_body' and old in text[bopen:bclose + 1]:
+                continue        # the text to rewrite is in the dropped body (R8)
             if cnt == 0:
                 raise Lost('fn %s: rewrite source text not found: %s' % (name, old))
             if cnt > 1 and not all_:
@@ -294,6 +338,8 @@ class Unit:
             for p in out_pieces:
                 if p[0] == 'src':
                     p[1] = p[1].replace(old, new)
+            if new.startswith('match IntoIterator::into_iter(') and old.lstrip().startswith('for'):
+                continue
             self.rewrites.append(dict(rule='R4' if old.lstrip().startswith('for') else 'RW',
                                       fn=name, old=old, new=new, count=cnt))
         # the ret_close piece: type text may have trailing space before '{'
